@@ -9,11 +9,12 @@ import (
 
 func Run(r *core.Report, env *build.Env) {
 	r.Level = "model_checking"
-	s := &goh.Suite{R: r, Env: env, Patterns: []string{"./src/parser/typechecker", "./src/parser/resolver", "./src/ddptypes", "./src/ast"}, Files: map[string]string{
+	s := &goh.Suite{R: r, Env: env, Patterns: []string{"./src/parser/typechecker", "./src/parser/resolver", "./src/ddptypes", "./src/ast", "./src/parser"}, Files: map[string]string{
 		"src/parser/typechecker/zz_verif_c04.go": "typechecker/zz_verif_c04.go",
 		"src/parser/typechecker/zz_verif_c14.go": "typechecker/zz_verif_c14.go",
 		"src/parser/typechecker/zz_verif_c07.go": "typechecker/zz_verif_c07.go",
 		"src/parser/resolver/zz_verif_c04.go":    "resolver/zz_verif_c04.go",
+		"src/parser/zz_verif_c04.go":             "parser/zz_verif_c04.go",
 	}}
 	if !s.Load() {
 		return
@@ -31,6 +32,13 @@ func Run(r *core.Report, env *build.Env) {
 		{Pkg: "src/parser/resolver", Func: "VerifC04Scopes2", Bound: "2 declarations (variable/Konstante/function, symbolic 1-byte names) over 3 nested scopes, then a use or an assignment"},
 		{Pkg: "src/parser/resolver", Func: "VerifC04Scopes3", Bound: "3 declarations over 3 nested scopes, then a use or an assignment"},
 	}
+	hs = append(hs,
+		goh.Harness{Pkg: "src/parser", Func: "VerifC04FinalReturn", Bound: "whole frontend: function declared in one piece / declared first and defined later / generic and instantiated, returning Zahl or Text, 6 body shapes"},
+		goh.Harness{Pkg: "src/parser", Func: "VerifC04LoopControl", Bound: "whole frontend: leave/continue x 8 placements x 4 loop forms"},
+		goh.Harness{Pkg: "src/parser", Func: "VerifC04Articles", Bound: "whole frontend: 3 articles x 12 types (primitives, lists, Variable, type definition, type alias, Kombination)"},
+		goh.Harness{Pkg: "src/parser", Func: "VerifC04Constants", Bound: "whole frontend: Konstante or variable x 7 uses (assignment, in-place change, Referenz argument, value argument, read)"},
+		goh.Harness{Pkg: "src/parser", Func: "VerifC04ScopeUses", Bound: "whole frontend: 8 scope situations (block, use before declaration, parameter, loop variable, redeclaration, nesting, shadowing, foreign local)"},
+	)
 	if r.Tier == "thorough" {
 		hs = append(hs,
 			goh.Harness{Pkg: "src/parser/typechecker", Func: "VerifC04Ternary", Bound: "every ternary operator x every triple of operand type terms of depth <= 1"},
